@@ -176,6 +176,8 @@ class Interp:
         self.n_stmts = 0
         self.saw_nan = False
         self.ambiguous = None
+        self.int_typed_math = False
+        self.branch_cut_function = False
         self.max_steps = 5_000_000
 
     # ---- scopes
@@ -260,6 +262,14 @@ class Interp:
             cplx = any(isinstance(a, complex) for a in args) or (self.scalar_complex and e.args[0].dtype != L.DataType.REAL)
             if cplx and e.args[0].dtype == L.DataType.REAL:
                 self.ambiguous = "math function with REAL first argument and complex other argument"
+            if cplx and e.function not in ("exp", "sin", "cos", "sinh", "cosh", "abs", "real", "imag", "conj"):
+                # functions with branch cuts: the result depends on the sign of zero parts, which Python's complex arithmetic
+                # does not track the way C99 Annex G / numpy do; the interpreter is not a reference there
+                self.branch_cut_function = True
+            if self.scalar_complex and e.args[0].dtype == L.DataType.INT:
+                # C takes it in the scalar (complex) type, Python in the real type: they differ in the sign of zero
+                # imaginary parts, which matters on branch cuts
+                self.int_typed_math = True
             r = _cfun(e.function, args, cplx)
             if cplx and e.function in ("abs", "real", "imag") and isinstance(r, complex):
                 r = r.real
